@@ -116,7 +116,7 @@ class ParseTimeout(argparse.Action):
                 return f"{int(value)}s"
 
             ms = value * 1000
-            if ms == int(ms) and ms / 1000 == value:
+            if abs(ms) != float("inf") and ms == int(ms) and ms / 1000 == value:
                 return f"{int(ms)}ms"
 
         # anything else is rendered exactly (repr round-trips floats)
